@@ -217,6 +217,9 @@ class FuncTr:
                 return "(PDict [])"
             if f.id in ("set", "list") and not args:
                 return "(PList [])"
+            if f.id == "list" and len(args) == 1:
+                # a new list with the items of the iterable (values are immutable here: a copy is the same value)
+                return "(PList (py_iter %s))" % self.expr(args[0])
             if f.id == "hasattr" and len(args) == 2 and isinstance(args[1], ast.Constant):
                 return "(py_hasattr %s %s)" % (self.expr(args[0]), cstr(args[1].value))
             if f.id == "getattr" and len(args) == 2 and isinstance(args[1], ast.Constant):
